@@ -8,9 +8,11 @@ import Driver.Util
 import Driver.OpsCivil
 import Driver.OpsLunar
 import Driver.OpsTerms
+import Driver.OpsHoliday
+import Driver.OpsEightChar
 namespace Driver
 
-def allOps : List (String × Handler) := opsCivil ++ opsLunar ++ opsTerms
+def allOps : List (String × Handler) := opsCivil ++ opsLunar ++ opsTerms ++ opsHoliday ++ opsEightChar
 
 structure Stats where
   lines : Nat := 0
